@@ -171,7 +171,7 @@ pub fn common_apply<K: KeyT, C: Cache<K, TV>>(c: &mut C, op: &Value, h: &mut Hol
             runit()
         }
         "len" => rint(c.len() as u64),
-        "cap" => rint(c.cap() as u64),
+        "cap" => rint((c.cap() as u64).min(2147483647)),      // usize::MAX is logged as 2^31-1 (TLC integers)
         "is_empty" => rbool(c.is_empty()),
         _ => return None,
     })
